@@ -71,7 +71,7 @@ def build_tools():
     return True, ""
 
 
-GENERATORS = ["arith"]
+GENERATORS = ["arith", "scan"]
 
 
 def regenerate():
